@@ -106,12 +106,16 @@ class CtlGen:
     def test(self, loop=False):
         opts = ["ext"]
         if self.arg_tests and not loop:
-            opts += ["x < y", "x == 1", "not x", "c.a", "c[0]"]
+            opts += ["x < y", "x == 1", "not x", "c.a", "c[0]", "c[1] < 1", "ext2(0) < ext2(1)"]
         o = opts[self.ch.choose(len(opts))]
         if o == "ext":
             s = self.site
             self.site += 1
             return f"ext({s})"
+        if o.startswith("ext2"):
+            s = self.site
+            self.site += 2
+            return f"ext({s}) < ext({s + 1})"
         return o
 
     def compound(self, ind, depth, inloop):
@@ -218,13 +222,15 @@ class LoopGen:
         place = self.PLACES[c(len(self.PLACES))]
         term = self.TERMS[c(3)]
         guarded = c(2)
+        dead = ["", "pass", "break", "continue"][c(4)]  # a dead no-op / terminator right after the terminator
         self.kinds_used = [outer, inner]
-        self.position = f"{place}:{term}:{'if' if guarded else 'bare'}"
+        self.position = f"{place}:{term}:{'if' if guarded else 'bare'}:{dead or 'nodead'}"
 
         def T(ind):
+            tail = [f"{ind}{dead}"] if dead else []
             if guarded:
-                return [f"{ind}if ext(7):", f"{ind}    mark(70)", f"{ind}    {term}", f"{ind}mark(71)"]
-            return [f"{ind}{term}"]
+                return [f"{ind}if ext(7):", f"{ind}    mark(70)", f"{ind}    {term}"] + [f"    {t}" for t in tail] + [f"{ind}mark(71)"]
+            return [f"{ind}{term}"] + tail
 
         L = ["def f(x, y, n, c, v=0):", "    mark(1)"]
         L.append(self.head(outer, 0, "    "))
@@ -247,6 +253,8 @@ class LoopGen:
             if place == "outer-else":
                 t2 = "return v" if term != "return v" else term
                 L += ([f"        if ext(7):", f"            {t2}"] if guarded else [f"        {t2}"])
+                if dead == "pass":
+                    L.append(("            " if guarded else "        ") + "pass")
         L += ["    mark(8)", "    return v"]
         return "\n".join(L) + "\n"
 
